@@ -422,6 +422,13 @@ def check(repo: Repo, run: Run) -> None:
             mono = all(seq[i] < seq[i + 1] for i in range(len(seq) - 1))
             if not mono or notpath:
                 worst = (seq, notpath)
+        uses_lookups = any(x.op == "call" and x.a[0].op == "attr" and x.a[0].a[0] == PARSER and x.a[0].a[1] in ("parse_vnode", "parse_vnodes")
+                           for x in sym.walk(d.ret)) if d.ret is not None else False
+        if uses_lookups and not any(lookup_ordinal(decoders.strip_conditions(h), first_lookup) is not None for h in render.holes(d.segs)):
+            # the decoder asks for the nested lookups but none of its rendered arguments is a lookup picked by position or by
+            # "the rest" (paths drawn one by one from an iterator with next(), zipped, ...): which lookup lands where is not followed
+            run.floor_failures.append(f"C08/R3: the decoder of {e.key} takes its paths from the nested lookups in a form these rules do "
+                                      f"not follow: their order is not decided")
         if any(lookup_ordinal(decoders.strip_conditions(h), first_lookup) is not None
                for h in render.holes(d.segs)):
             ok = worst is None
